@@ -46,7 +46,7 @@ def required_cells(tier):
     cells += ["chain-in-dead-parent:plain", "chain-in-dead-parent:with-elif", "chain-in-dead-parent:with-else"]
     cells += ["depth:1", "depth:2", "depth:3+", "define-in-dead-group", "define-in-live-group", "undef-live",
               "elif-after-taken-branch", "directive-continuation", "empty-group", "class:enum", "class:random",
-              "class:stress", "table-compared"]
+              "class:stress", "table-compared", "via-cli"]
     return cells
 
 
@@ -197,6 +197,32 @@ def run_case(ctx, workdir, text, defines, r, cls, check_table=True, case=None):
         acc.violated({"input": full_input, "witness": dict(witness, problems=problems)},
                      mechanism=classify(p0, text, defines, workdir), cells=cells, nontrivial=nontrivial, cls=cls)
         return "violated"
+    if case is not None and case.get("cli"):
+        # the boundary users see: cbi-cov compute on the same file and command
+        import json
+        from cbimon import cli
+        db = os.path.join(workdir, "db.json")
+        with open(db, "w") as f:
+            json.dump([{"file": path, "directory": workdir, "arguments": ["gcc"] + ["-D" + d for d in defines] + ["-c", path]}], f)
+        covp = os.path.join(workdir, "cov.json")
+        rc, out, err = cli.run("cbi-cov", ["compute", "-S", workdir, "-o", covp, db], workdir)
+        acc.hook("cli-runs")
+        if rc != 0:
+            problems.append({"kind": "cbi-cov failed", "stderr": err[-300:]})
+        else:
+            cov = {e["file"]: e for e in json.load(open(covp))}
+            got = set(cov.get("main.c", {}).get("used_lines", []))
+            cells.add("via-cli")
+            if got != exp:
+                problems.append({"kind": "cbi-cov used_lines", "missing": sorted(exp - got)[:20], "extra": sorted(got - exp)[:20]})
+        for fn in ("db.json", "cov.json", "cbi.log"):
+            try:
+                os.unlink(os.path.join(workdir, fn))
+            except OSError:
+                pass
+        if problems:
+            acc.violated({"input": full_input, "witness": dict(witness, problems=problems)}, cells=cells, nontrivial=nontrivial, cls=cls)
+            return "violated"
     acc.held(cells=cells, nontrivial=nontrivial, cls=cls,
              sample={"text": text, "defines": list(defines), "used_lines": sorted(exp)})
     return "held"
@@ -251,7 +277,7 @@ def run_shard(ctx):
         if not ctx.mine(i):
             continue
         style = {"cont": 0.15, "comment": 0.15, "indent": 0.1} if style_roll < 0.5 else None
-        case = {"ast": ast, "style": style, "sseed": srng_seed}
+        case = {"ast": ast, "style": style, "sseed": srng_seed, "cli": (i % 50 == ctx.shard)}
         r = render_case(case)
         if r.n_chains == 0:
             continue
